@@ -296,8 +296,9 @@ def evs_by_id(evs, i):
             return e
 
 
-def execute(build, sc, label, cases, seed, jobs_impl=12, jobs_tlc=8, per=2500):
+def execute(build, sc, label, cases, seed, jobs_impl=12, jobs_tlc=8, per=2500, phase=None):
     """shard, run on chibi, validate with TLC.  Returns (events with global ids, {id: clauses})."""
+    t0 = time.time()
     shards = [(k, cases[i:i + per]) for k, i in enumerate(range(0, len(cases), per))]
     ran = vlib.parallel(lambda sh: run_impl(build, sc, "%s_%d" % (label, sh[0]), sh[1], seed * 1000 + sh[0]), shards, jobs=jobs_impl)
     evs = []
@@ -305,10 +306,15 @@ def execute(build, sc, label, cases, seed, jobs_impl=12, jobs_tlc=8, per=2500):
         for e in part:
             e["id"] = len(evs)
             evs.append(e)
+    if phase is not None:
+        phase["chibi"] = round(time.time() - t0, 1)
+    t0 = time.time()
     vshards = [(k, evs[i:i + 4 * per]) for k, i in enumerate(range(0, len(evs), 4 * per))]
     rej = {}
     for part in vlib.parallel(lambda sh: validate(sc, "%s_v%d" % (label, sh[0]), sh[1])[0], vshards, jobs=jobs_tlc):
         rej.update(part)
+    if phase is not None:
+        phase["tlc-validation"] = round(time.time() - t0, 1)
     return evs, rej
 
 
@@ -353,6 +359,8 @@ def reductions(t):
             out.append(["lit", t[1]])
             if t[2] - t[1] <= 3:
                 out.append(["set", list(range(t[1], t[2] + 1))])
+            else:
+                out.append(["range", t[1], t[1] + 1])
         if k in ("set", "nset") and len(t[1]) == 1 and k == "set":
             out.append(["lit", t[1][0]])
     else:
@@ -375,6 +383,9 @@ def shrink_candidates(t, s):
         out.append((c, s))
     for i in range(len(s)):
         out.append((t, s[:i] + s[i + 1:]))
+    for i in children(t):                           # an operand of the root together with a shorter subject
+        for j in range(len(s)):
+            out.append((t[i], s[:j] + s[j + 1:]))
     res = []
     for c in out:
         key = json.dumps(c)
@@ -388,26 +399,41 @@ def weight(case):
     return (size(case[0]) + len(case[1]), json.dumps(case))
 
 
-def shrink(build, sc, ev, cls, tagname, rounds=12):
-    """greedy minimisation; a candidate is kept only if chibi's recorded result for it is again rejected by TLC
-       with a failure of the same class"""
-    cur = (ev["sre"], ev["s"])
-    last = ev
+def shrink_all(build, sc, items, tagname, rounds=14):
+    """greedy minimisation of several rejected cases at once (one chibi run + one TLC run per round).
+       items: list of dicts {cur:(sre,subject), cls, last:event}.  A candidate replaces the current case only if
+       chibi's recorded result for it is again rejected by TLC with a failure of the same class."""
+    active = list(range(len(items)))
     for k in range(rounds):
-        cands = sorted(shrink_candidates(*cur), key=weight)[:400]
-        if not cands:
+        batch, owner = [], []
+        for i in active:
+            for c in sorted(shrink_candidates(*items[i]["cur"]), key=weight)[:120]:
+                batch.append(c)
+                owner.append(i)
+        if not batch:
             break
-        evs = run_impl(build, sc, "shr_%s_%d" % (tagname, k), cands, 1)
+        evs = run_impl(build, sc, "shr_%s_%d" % (tagname, k), batch, 1)
         rej, _ = validate_soft(sc, "shr_%s_%d" % (tagname, k), evs)
-        nxt = None
-        for e in evs:
-            if e["id"] in rej and fclass(rej[e["id"]]) == cls:
-                nxt = e
-                break
-        if nxt is None:
+        moved = set()
+        for e, i in zip(evs, owner):
+            if i not in moved and e["id"] in rej and fclass(rej[e["id"]]) == items[i]["cls"]:
+                items[i]["cur"] = (e["sre"], e["s"])
+                items[i]["last"] = dict(e, clauses=rej[e["id"]])
+                items[i]["confirmed"] = True
+                moved.add(i)
+        active = [i for i in active if i in moved]
+        if not active:
             break
-        cur, last = (nxt["sre"], nxt["s"]), dict(nxt, clauses=rej[nxt["id"]])
-    return last
+    # a case that could not be made smaller at all has not been re-run yet: do it now (flakiness guard)
+    todo = [it for it in items if not it.get("confirmed")]
+    if todo:
+        evs = run_impl(build, sc, "confirm_%s" % tagname, [it["cur"] for it in todo], 1)
+        rej, _ = validate_soft(sc, "confirm_%s" % tagname, evs)
+        for it, e in zip(todo, evs):
+            if e["id"] not in rej:
+                raise Broken("rejection of %s not reproducible on a second run" % json.dumps(it["last"])[:400])
+            it["last"] = dict(e, clauses=rej[e["id"]])
+    return items
 
 
 def validate_soft(sc, label, evs):
@@ -426,13 +452,23 @@ def validate_soft(sc, label, evs):
 
 
 def shape_match(p, t):
-    """does the shrunk pattern p occur at the root of t?  eps in the pattern = anything"""
+    """does the shrunk pattern p occur at the root of t?  eps in the pattern = anything; or/seq are compared
+       flattened (the pattern's operands must match an ordered selection of the node's operands)"""
     if p[0] == "eps":
         return True
     if p[0] != t[0]:
         return False
     if p[0] == "rep" and (p[1], p[2]) != (t[1], t[2]):
         return False
+    if p[0] in ("or", "seq"):
+        pp, tt = flat(p, p[0]), flat(t, t[0])
+        j = 0
+        for x in tt:
+            if j < len(pp) and shape_match(pp[j], x):
+                j += 1
+        return j == len(pp)
+    if p[0] in ("set", "nset", "lit", "range"):
+        return True
     return all(shape_match(p[i], t[i]) for i in children(p))
 
 
@@ -451,54 +487,58 @@ def signature(t):
     return k
 
 
-def report_rejections(chk, build, sc, evs, rej, max_shrinks=6):
-    """group the rejected results by structural key and report each key once"""
-    todo = sorted(rej, key=lambda i: weight((evs[i]["sre"], evs[i]["s"])))
-    found = []            # (key, cls, minimal event, [ids])
-    shrinks = 0
-    for i in todo:
-        e, cls = evs[i], fclass(rej[i])
-        hit = None
-        for f in found:
-            if f[1] == cls and contains(f[2]["sre"], e["sre"]):
-                hit = f
+def report_rejections(chk, build, sc, evs, rej, per_stage=16, stages=3):
+    """group the rejected results by structural key (signature of the minimised case) and report each key once"""
+    found = {}            # key -> [cls, minimal event, [ids]]
+    rest = sorted(rej, key=lambda i: weight((evs[i]["sre"], evs[i]["s"])))
+    for stage in range(stages):
+        # attribute what contains an already minimised pattern
+        left = []
+        for i in rest:
+            cls = fclass(rej[i])
+            for key, f in found.items():
+                if f[0] == cls and contains(f[1]["sre"], evs[i]["sre"]):
+                    f[2].append(i)
+                    break
+            else:
+                left.append(i)
+        rest = left
+        if not rest:
+            break
+        # minimise the smallest remaining ones, one per coarse signature
+        chosen, sigs = [], set()
+        for i in rest:
+            sg = (fclass(rej[i]), tuple(sorted(tags(evs[i]["sre"]))))
+            if sg not in sigs:
+                sigs.add(sg)
+                chosen.append(i)
+            if len(chosen) >= per_stage:
                 break
-        if hit:
-            hit[3].append(i)
-            continue
-        if shrinks >= max_shrinks:
-            key, m = "%s:unshrunk" % cls, dict(e, clauses=rej[i])
-        else:
-            shrinks += 1
-            m = shrink(build, sc, e, cls, "f%d" % shrinks)
-            if "clauses" not in m:          # nothing smaller fails: confirm the original once more (flakiness guard)
-                again = run_impl(build, sc, "confirm_%d" % shrinks, [(e["sre"], e["s"])], 1)
-                r2, _ = validate_soft(sc, "confirm_%d" % shrinks, again)
-                if 0 not in r2:
-                    raise Broken("rejection of %s not reproducible on a second run" % json.dumps(e)[:400])
-                m = dict(again[0], clauses=r2[0])
-            key = "%s:%s" % (cls, signature(m["sre"]))
-        for f in found:
-            if f[0] == key:
-                f[3].append(i)
-                break
-        else:
-            found.append((key, cls, m, [i]))
-    for key, cls, m, ids in found:
+        items = [{"cur": (evs[i]["sre"], evs[i]["s"]), "cls": fclass(rej[i]), "last": dict(evs[i], clauses=rej[i])} for i in chosen]
+        shrink_all(build, sc, items, "s%d" % stage)
+        for i, it in zip(chosen, items):
+            key = "%s:%s" % (it["cls"], signature(it["last"]["sre"]))
+            found.setdefault(key, [it["cls"], it["last"], []])[2].append(i)
+        rest = [i for i in rest if i not in set(chosen)]
+    if rest:
+        for i in rest:
+            key = "%s:unshrunk" % fclass(rej[i])
+            found.setdefault(key, [fclass(rej[i]), dict(evs[i], clauses=rej[i]), []])[2].append(i)
+    for key, (cls, m, ids) in sorted(found.items()):
         ex = [dict(evs[i], clauses=rej[i]) for i in ids[:5]]
-        msg = ("%d recorded results rejected by Regex.tla; minimal: sre=%s subject=%s clauses=%s recorded m=%s matches=%s search=%s err=%s"
+        msg = ("%d recorded results rejected by Regex.tla; minimal: sre=%s subject=%s clauses=%s recorded matches?=%s matches=%s search=%s err=%s"
                % (len(ids), m.get("datum"), json.dumps("".join(map(chr, m["s"]))), m.get("clauses"), m["m"], m["mm"] if m["mf"] else "#f",
                   m["ss"] if m["sf"] else "#f", m["err"]))
         chk.report(key, msg, "%s.json" % re.sub(r"[^A-Za-z0-9_+-]", "_", key),
                    {"key": key, "class": cls, "minimal": m, "count": len(ids), "examples": ex,
                     "how": "./check C20 --replay <this file> re-runs the minimal case on a fresh build and lets TLC judge it"})
-    return found
+    return {k: len(v[2]) for k, v in found.items()}
 
 
 # --------------------------------------------------------------------------
 # the check
 # --------------------------------------------------------------------------
-MC_QUICK = ["A", "A1", "B", "B1", "C", "C1"]
+MC_QUICK = ["A", "A1", "B1", "C1"]
 MC_THOROUGH = ["AT", "A3T", "A1T", "BT", "CT"]
 INVS = ["TwoFormulations", "SearchIsContextMatch", "SearchFromMatch", "GroupsWF", "ReportSound", "ReportRejectsNonMatch"]
 ASCII4 = [97, 98, 99, NL]
@@ -581,49 +621,52 @@ def run():
     chk = vlib.Check("C20")
     T = chk.thorough
     with vlib.Scratch("c20") as sc:
+        t0 = time.time()
+        phase = chk.cov.setdefault("phase_seconds", {})
         build = vlib.build_repo(sc.sub("build"))
         S = chk.seed
-        # ---- phase A: model checking of the specification and case generation by TLC, concurrently
-        jobs = [("mc", n) for n in (MC_THOROUGH if T else MC_QUICK)]
-        jobs += [("exh", "abc", [97, 98, 99], 5 if T else 4, 1, "full"),
-                 ("exh", "anchor", [97, NL], 3 if T else 4, 2 if T else 1, "anchor"),
-                 ("exh", "case", [97, 65, 98], 2 if T else 3, 2 if T else 1, "case"),
-                 ("exh", "ab2", [97, 98], 3 if T else 2, 2, "full"),
-                 ("sim", "ascii", ASCII4, 6000 if T else 700, 40, S),
-                 ("sim", "ascii2", ASCII4, 6000 if T else 500, 25, S + 1),
-                 ("sim", "case", CASE4, 4000 if T else 500, 35, S + 2),
-                 ("sim", "unicode", UNI, 4000 if T else 500, 35, S + 3)]
+        phase["build"] = round(time.time() - t0, 1); t0 = time.time()
+        # ---- model checking of the specification runs in the background while cases are generated and executed
+        from concurrent.futures import ThreadPoolExecutor
+        mc_pool = ThreadPoolExecutor(max_workers=8)
+        mc_futs = [mc_pool.submit(mc_job, sc, n) for n in (MC_THOROUGH if T else MC_QUICK)]
+        # ---- phase A: case generation by TLC
+        jobs = [("exh", "abc", [97, 98, 99], 5 if T else 4, 1, "full"),
+                ("exh", "anchor", [97, NL], 3 if T else 4, 2 if T else 1, "anchor"),
+                ("exh", "case", [97, 65, 98], 2 if T else 3, 2 if T else 1, "case"),
+                ("exh", "ab2", [97, 98], 3 if T else 2, 2, "full"),
+                ("sim", "ascii", ASCII4, 3000 if T else 220, 40, S),
+                ("sim", "ascii2", ASCII4, 3000 if T else 150, 25, S + 1),
+                ("sim", "case", CASE4, 2500 if T else 150, 35, S + 2),
+                ("sim", "unicode", UNI, 1500 if T else 70, 35, S + 3)]
 
         def phase_a(j):
-            if j[0] == "mc":
-                return mc_job(sc, j[1])
             if j[0] == "exh":
                 cases, r = gen_exhaustive(sc, j[1], j[2], j[3], j[4], j[5])
                 return ("exh", j[1], cases, r)
             return ("sim", j[1], gen_simulated(sc, j[1], j[2], j[3], j[4], j[5]), j[2])
         fam = {}
         for res in vlib.parallel(phase_a, jobs, jobs=len(jobs)):
-            if res[0] == "mc":
-                chk.add_mc("RegexMC_" + res[1], res[2])
-            elif res[0] == "exh":
+            if res[0] == "exh":
                 fam["exh-" + res[1]] = [tuple(c) for c in res[2]]
                 chk.cov.setdefault("generator_states", {})["exh-" + res[1]] = res[3].distinct
             else:
                 rng = __import__("random").Random(S * 7919 + len(fam))
                 fam["sim-" + res[1]] = add_members([tuple(c) for c in res[2]], res[3], rng)
+        phase["generation"] = round(time.time() - t0, 1); t0 = time.time()
         chk.cov["mc_invariants"] = INVS + ["Laws (level-1 configurations)"]
         chk.cov["exhaustive"] = True
         # the depth-2 family is large: a seeded sample in the quick tier
         if not T:
             rng = __import__("random").Random(S)
-            fam["exh-ab2"] = rng.sample(fam["exh-ab2"], min(len(fam["exh-ab2"]), 15000))
+            fam["exh-ab2"] = rng.sample(fam["exh-ab2"], min(len(fam["exh-ab2"]), 5000))
         # ---- phase B/C: run on the real chibi, TLC judges every recorded result
-        cases, origin = [], []
+        cases = []
         for name in sorted(fam):
-            for c in fam[name]:
-                cases.append(c)
-                origin.append(name)
-        evs, rej = execute(build, sc, "all", cases, S)
+            cases += fam[name]
+        __import__("random").Random(S).shuffle(cases)          # balances the shards (simulated cases are the expensive ones)
+        evs, rej = execute(build, sc, "all", cases, S, phase=phase)
+        t0 = time.time()
         chk.cov["evaluations"] = len(evs)
         chk.cov["traces_validated_against_impl"] = len(evs) - len(rej)
         chk.cov["cases_per_family"] = {n: len(fam[n]) for n in sorted(fam)}
@@ -651,10 +694,17 @@ def run():
             chk.sample({"sre": e["datum"], "abstract": e["sre"], "subject": "".join(map(chr, e["s"])), "regexp-matches?": e["m"],
                         "regexp-matches": e["mm"] if e["mf"] else False, "regexp-search": e["ss"] if e["sf"] else False})
         chk.cov["binding_selftest_corruptions_rejected"] = binding_selftest(sc, good)
+        phase["selftest"] = round(time.time() - t0, 1); t0 = time.time()
+        # ---- collect the model checking results
+        for f in mc_futs:
+            res = f.result()
+            chk.add_mc("RegexMC_" + res[1], res[2])
+        mc_pool.shutdown()
+        phase["waiting-for-mc"] = round(time.time() - t0, 1); t0 = time.time()
         # ---- rejected results
         if rej:
-            found = report_rejections(chk, build, sc, evs, rej)
-            chk.cov["rejected_results"] = {f[0]: len(f[3]) for f in found}
+            chk.cov["rejected_results"] = report_rejections(chk, build, sc, evs, rej)
+            phase["minimise-rejections"] = round(time.time() - t0, 1)
         chk.cov["rule"] = ("a case = one (SRE, subject) pair: all SREs of depth<=1 over {a,b,c} x all subjects up to length 4 (5 thorough), anchor and case-folding "
                            "families likewise over {a,newline} / {a,A,b}, depth-2 SREs over {a,b} (seeded sample in quick), all enumerated by TLC (RegexGen), plus "
                            "TLC-simulated SREs up to depth 5 (RegexSim) with subjects up to length 12 over {a,b,c,newline}, {a,A,b,B} and a Unicode alphabet; "
